@@ -24,7 +24,8 @@ ROOT = os.path.dirname(os.path.dirname(os.path.abspath(__file__)))
 REPO = os.environ.get("VERIF_REPO", "/repo")
 TLA_DIR = os.path.join(ROOT, "tla")
 HARNESS = os.path.join(ROOT, "harness")
-EVIDENCE = os.path.join(ROOT, "evidence")
+# runs against another tree (VERIF_REPO: seeded changes, controls) must not overwrite the evidence of /repo
+EVIDENCE = os.environ.get("VERIF_EVIDENCE") or os.path.join(ROOT, "evidence-alt" if "VERIF_REPO" in os.environ else "evidence")
 NCPU = os.cpu_count() or 4
 
 GOENV = dict(os.environ)
